@@ -17,6 +17,9 @@
 EXTENDS FRProps, Json, IOUtils
 
 CONSTANT Check      \* the clause identifiers to evaluate
+MonCheck == IF IOEnv.FR_CHECK = "ALL" THEN ClauseIds \cup {"C14.replicas"}
+            ELSE IF IOEnv.FR_CHECK = "C14" THEN {"C14.replicas"}
+            ELSE ByProp[IOEnv.FR_CHECK]
 
 Tr == ndJsonDeserialize(IOEnv.FR_TRACE)
 MonUsers == Tr[1].act.users
@@ -41,6 +44,15 @@ InitDrift(rec) ==
   LET s0 == InitState(rec.act.bal0, rec.act.params, FALSE) IN
   {f \in StateFields : s0[f] # rec.st[f]}
 
+(* C14 (2-safety, by self-composition): the harness executes every behaviour several times *)
+(* and logs the replicas back to back; step k of a replica must equal step k of the previous *)
+(* replica in everything observed: result, complete module state and balances, ordered bank *)
+(* transfers, module events, and the digests of the full ordered event stream and of the    *)
+(* module's raw store with the account numbers created so far.                              *)
+SameObs(a, b) ==
+  /\ a.act = b.act /\ a.res = b.res /\ a.st = b.st /\ a.xfers = b.xfers
+  /\ a.hooks = b.hooks /\ a.extra = b.extra /\ a.ev = b.ev
+
 Report(kind, rec, what) == PrintT(<<kind, rec.trace, rec.i, what>>)
 
 MInit == l = 0 /\ ghost = Ghost0
@@ -57,10 +69,16 @@ MNext ==
      ELSE LET step == StepAt(l + 1)
               g2   == GhostNext(ghost, step)
               f    == Fails(step, ghost, g2, Check)
-              d    == DriftOf(Do(step.pre, step.act), step)
+              exp  == Do(step.pre, step.act)
+              d    == DriftOf(exp, step)
           IN /\ ghost' = g2
              /\ (f # {} => Report("FAIL", rec, f))
              /\ (d # {} => Report("DRIFT", rec, d))
+             /\ ((d # {} /\ "FR_DEBUG" \in DOMAIN IOEnv) =>
+                   PrintT(<<"EXPECTED", rec.trace, rec.i, [fld \in d \cap StateFields |-> exp.st[fld]], exp.ok, exp.err, exp.xfers>>))
+  /\ LET rec == Tr[l + 1] IN
+       ("C14.replicas" \in Check /\ rec.rep > 1 /\ ~SameObs(rec, Tr[l + 1 - rec.len]))
+          => Report("FAIL", rec, {"C14.replicas"})
   /\ (l + 1 = Len(Tr) => PrintT(<<"DONE", Len(Tr)>>))
 
 MSpec == MInit /\ [][MNext]_mvars
